@@ -23,6 +23,8 @@ func checkC11(w *World, r *Report, tier string) propMeta {
 	c11R3(w, r)
 	c11R4(w, r)
 	c11R6(w, r)
+	c03R4(w, r) // the rows the merged filters are rebuilt from are never views of a buffer that is reused or pooled
+	c03R6(w, r, "C11.R7")
 	r.rule("C11.R5", "UpdateMinMaxIndex, which mergeMinMaxIndexes folds the members' ranges with, returns (min,max) under every ordering of its inputs (shared with C04.R2)", 1)
 	updateMinMaxTable(w, r, "C11.R5")
 	// R5 = C13.R2–R3
